@@ -37,6 +37,7 @@ from nemoguardrails.colang.v2_x.runtime.statemachine import (
     FlowConfig,
     InternalEvent,
     State,
+    _remove_head_from_event_matching_structures,
     expand_elements,
     initialize_flow,
     initialize_state,
@@ -140,6 +141,11 @@ class RuntimeV2_x(Runtime):
         for flow_id in flow_ids:
             if flow_id in state.flow_id_states:
                 for flow_state in state.flow_id_states[flow_id]:
+                    # The heads must no longer be found by the event matching
+                    for head in flow_state.heads.values():
+                        _remove_head_from_event_matching_structures(
+                            state, flow_state, head
+                        )
                     del state.flow_states[flow_state.uid]
                 del state.flow_id_states[flow_id]
             if flow_id in state.flow_configs:
